@@ -44,6 +44,7 @@ impl RefCrc {
 }
 
 fn impl_crc(f: &[u8]) -> Result<u32, String> {
+    set_case_bytes(2, f);
     match guarded(|| modes_checksum(f, f.len() * 8)) {
         Err(p) => Err(format!("panic: {p}")),
         Ok(Err(e)) => Err(format!("error: {e}")),
@@ -71,6 +72,7 @@ static OTHER_DF: std::sync::atomic::AtomicU64 = std::sync::atomic::AtomicU64::ne
 fn check_accept(f: &[u8]) -> Option<(String, String)> {
     let syn = ref_remainder(f);
     let df = f[0] >> 3;
+    set_case_bytes(2, f);
     match guarded(|| Message::try_from(f)) {
         Err(p) => Some(("accept:panic".into(), format!("Message::try_from({}) panicked: {p}", hexs(f)))),
         Ok(r) => {
@@ -120,6 +122,7 @@ pub fn icao_of(m: &Message) -> Option<u32> {
 /// AP overlay: frame built with parity XOR address must report that address.
 fn check_ap(f: &[u8], addr: u32, with_json: bool) -> Option<(String, String)> {
     let df = f[0] >> 3;
+    set_case_bytes(2, f);
     match guarded(|| Message::try_from(f)) {
         Err(p) => Some((format!("ap:panic:DF{df}"), format!("Message::try_from({}) panicked: {p}", hexs(f)))),
         Ok(Err(e)) => Some((format!("ap:rejected:DF{df}"), format!("frame {} rejected: {e}", hexs(f)))),
